@@ -41,20 +41,60 @@ TRANS = ["colour", "colour", "omp-parallel-loop", "omp-parallel-loop",
          "acc-enter-data", "redundant"]
 
 
+# option dictionaries for ACCLoopTrans (index recorded in the history)
+ACC_LOOP_OPTIONS = [0, 0, 0, 1, 2, 3, 4, 5, 6, 7]
+_ACC_OPTS = [None, {"sequential": True}, {"gang": True}, {"vector": True},
+             {"gang": True, "vector": True},
+             {"sequential": True, "gang": True},
+             {"sequential": True, "vector": True}, {"independent": False}]
+
+
 def plan(tier):
     if tier == "thorough":
         return {"runs": 40000, "slice": 100, "budget_s": 2400,
                 "slice_timeout_s": 1200}
-    return {"runs": 400, "slice": 10, "budget_s": 150,
+    return {"runs": 800, "slice": 10, "budget_s": 150,
             "slice_timeout_s": 400}
 
 
+def _op(rng, kind, n=None, accopt=None):
+    return {"t": kind, "n": rng.randrange(1 << 16) if n is None else n,
+            "depth": pick(rng, [None, 1, 2]),
+            "accopt": pick(rng, ACC_LOOP_OPTIONS) if accopt is None
+            else accopt,
+            "n2": rng.randrange(1 << 16), "span": pick(rng, [1, 2, 3])}
+
+
 def gen_history(rng):
+    """Half of the histories are unstructured; the others are the coherent
+    pipelines a script would write (colour? -> loop directive -> region ->
+    enter data), which random sequences of six rarely assemble, followed
+    by a few random extras."""
+    shape = pick(rng, ["random", "random", "acc", "acc", "omp"])
     ops = []
-    for _ in range(rng.randint(1, 6)):
-        ops.append({"t": pick(rng, TRANS), "n": rng.randrange(1 << 16),
-                    "depth": pick(rng, [None, 1, 2]),
-                    "n2": rng.randrange(1 << 16), "span": pick(rng, [1, 2, 3])})
+    if shape == "random":
+        for _ in range(rng.randint(1, 6)):
+            ops.append(_op(rng, pick(rng, TRANS)))
+        return ops
+    n = rng.randrange(1 << 16)
+    if rng.random() < 0.5:
+        ops.append(_op(rng, "colour", n))
+    if rng.random() < 0.2:
+        ops.append(_op(rng, "redundant", n))
+    if shape == "acc":
+        # the same index usually addresses the loop just coloured or, one
+        # further, the cell loop inside it
+        ops.append(_op(rng, "acc-loop", n + pick(rng, [0, 0, 1])))
+        ops.append(_op(rng, pick(rng, ["acc-parallel", "acc-parallel",
+                                       "acc-kernels"]), n))
+        ops.append(_op(rng, "acc-enter-data"))
+    else:
+        ops.append(_op(rng, pick(rng, ["omp-loop", "omp-parallel-loop"]),
+                       n + pick(rng, [0, 0, 1])))
+        if rng.random() < 0.4:
+            ops.append(_op(rng, "omp-region", n))
+    for _ in range(rng.randint(0, 2)):
+        ops.insert(rng.randrange(len(ops) + 1), _op(rng, pick(rng, TRANS)))
     return ops
 
 
@@ -94,7 +134,8 @@ def apply_history(psy, ops, counters=None):
                     OMPParallelTrans().apply(
                         sched.children[pos:pos + op["span"]])
                 elif kind == "acc-loop":
-                    ACCLoopTrans().apply(loop)
+                    ACCLoopTrans().apply(loop, _ACC_OPTS[op.get("accopt",
+                                                                0)])
                 elif kind == "acc-parallel":
                     top = loop
                     while top.parent is not sched and top.parent is not None:
@@ -159,7 +200,9 @@ def scan_text(code, scn):
                     low.startswith("!$omp do") or \
                     low.startswith("!$omp taskloop") or \
                     low.startswith("!$omp loop") or \
-                    low.startswith("!$acc loop"):
+                    (low.startswith("!$acc loop") and
+                     " seq" not in low):
+                # ("!$acc loop seq" runs its loop sequentially)
                 pending = low
                 if low.startswith("!$omp parallel do"):
                     pass
